@@ -1355,7 +1355,7 @@ Proof. intros r. split; [apply verify_row_never_panics|discriminate]. Qed.
 
 Theorem run_spec_outside_known : forall c, known_C14 c = [] -> spec_C14 c (run_C14 c) = true.
 Proof.
-  intros c Hk. destruct c as [m|ms|k pok|r|rs|dm qs|dm q|aq|dp|info ans qs evs|rf md|s]; cbn [known_C14 spec_C14 run_C14] in *.
+  intros c Hk. destruct c as [m|ms|k pok|r|rs|dm qs|dm q|aq|dp|info ans qs evs|rf md|rm rv|s]; cbn [known_C14 spec_C14 run_C14] in *.
   - apply (pool_run_ok [mutation_valid m] [mutate_outcome m] _ default_parallelism_pos).
     constructor; [apply mutation_step_ok|constructor].
   - apply (pool_run_ok (map mutation_valid ms) (map mutate_outcome ms) _ default_parallelism_pos).
@@ -1390,6 +1390,8 @@ Proof.
     cbn [Z.eqb andb].
     repeat (apply andb_true_intro; split); try reflexivity; apply Z.leb_le; lia.
   - rewrite (ingest_never_kills_the_writer rf md). reflexivity.
+  - apply flag_nil in Hk. apply Bool.negb_false_iff in Hk. unfold room_def_obs. rewrite Hk.
+    destruct (room_row_accepted rm rv); reflexivity.
   - reflexivity.
 Qed.
 
@@ -1579,6 +1581,21 @@ Definition w_ref_filter_agg : aquery :=  (* Person(pets = null) { total: count()
 Definition w_alias_filter_agg : aquery :=  (* Person(order_by(a0 asc), a1 >= null) { a0: max(nat) a1: js->$.a ok } *)
   {| aq_sel := [ASAgg AMax FString; ASJson; ASField FBool true]; aq_search := None; aq_order := [KSel 0]; aq_first := None; aq_skip := None;
      aq_before := []; aq_after := []; aq_filters := [(KSel 1, false, ANull)]; aq_nullable := []; aq_params := [] |}.
+
+Theorem room_def_restart_outside_known : forall m v,
+  restart_succeeds m v = false <-> (m = MUserEnabled /\ v = JMissing).
+Proof.
+  intros m v. split.
+  - destruct m, v; cbn; try discriminate; try (destruct b64; discriminate); auto.
+  - intros [-> ->]. reflexivity.
+Qed.
+
+Lemma room_def_witnesses_w :
+  run_C14 (CRoomDef MUserEnabled JMissing) = [0; 1; 0] /\ known_C14 (CRoomDef MUserEnabled JMissing) = [11] /\
+  spec_C14 (CRoomDef MUserEnabled JMissing) [0; 1; 0] = false /\
+  run_C14 (CRoomDef MUserEnabled JNull) = [1; 1; 1] /\ run_C14 (CRoomDef MUserEnabled JBoolean) = [0; 1; 1] /\
+  run_C14 (CRoomDef MRightSelf JNumber) = [1; 1; 1] /\ run_C14 (CRoomDef MAuthName JNull) = [0; 1; 1].
+Proof. vm_compute. repeat split; reflexivity. Qed.
 
 Lemma frame_witnesses_w :
   run_C14 (CFrames (FFrame 4294967295 0 false) [] [] []) = [0; 0; 0; 0; 0; 1] /\
